@@ -509,10 +509,17 @@ def check_periodic(c):
         try:
             with warnings.catch_warnings(), contextlib.redirect_stdout(io.StringIO()):
                 warnings.simplefilter('ignore')
-                out = fn(Y, sh)
                 ref_out = fn(Yd, sh)
         except Exception as ex:
             res.skip('periodic call raised %s (%s)' % (type(ex).__name__, name))
+            continue
+        try:
+            with warnings.catch_warnings(), contextlib.redirect_stdout(io.StringIO()):
+                warnings.simplefilter('ignore')
+                out = fn(Y, sh)
+        except Exception as ex:
+            # the same values without sharing were accepted: the failure is caused by the shared core objects
+            res.fail('periodic.raised', case, '%s raised %s only when the middle cores are one shared object' % (name, type(ex).__name__), tags + ['mutation'])
             continue
         res.check([G.tobytes() for G in Y] == before and [id(G) for G in Y] == ids, 'periodic.mutation', case,
                   '%s modified a tensor whose middle cores are one shared object' % name, tags + ['mutation'])
